@@ -32,6 +32,7 @@ fn profile(g: &[(bool, String)]) -> Vec<BuildProfile> { g.iter().map(|(n, s)| if
 pub fn make_relation(r: &RelExp, origin: &str) -> Result<Relation, String> {
     match origin {
         "parsed" => guarded("Relation::from_str", || Relation::from_str(&super::rel::canon_rel(r)))?.map_err(|e| format!("operand rejected: {}", e)),
+        "padded" => guarded("Relation::from_str", || Relation::from_str(&format!(" {} ", super::rel::canon_rel(r))))?.map_err(|e| format!("operand rejected: {}", e)),
         "builder" => guarded("RelationBuilder::build", || {
             let mut b = Relation::build(&r.name);
             if let Some((op, v)) = &r.version { b = b.version_constraint(vc(op), v.parse().unwrap()); }
@@ -93,31 +94,56 @@ pub fn op_features(case: &Value, op: &Value, n_entries: usize) -> Vec<String> {
     f
 }
 
-fn apply(root: &mut Relations, op: &Value) -> Result<(), String> {
+/// Handles kept across steps ("persistent" mode): an edit through a handle obtained earlier must reach the field.
+#[derive(Default)]
+pub struct Handles { pub rels: std::collections::HashMap<(usize, usize), Relation>, pub entries: std::collections::HashMap<usize, Entry>, pub on: bool }
+impl Handles {
+    fn rel(&mut self, root: &Relations, i: usize, j: usize) -> Relation {
+        if self.on { if let Some(r) = self.rels.remove(&(i, j)) { return r; } }
+        root.get_entry(i).unwrap().get_relation(j).unwrap()
+    }
+    fn keep_rel(&mut self, i: usize, j: usize, r: Relation) { if self.on { self.rels.insert((i, j), r); } }
+    fn entry(&mut self, root: &Relations, i: usize) -> Entry {
+        if self.on { if let Some(e) = self.entries.remove(&i) { return e; } }
+        root.get_entry(i).unwrap()
+    }
+    fn keep_entry(&mut self, i: usize, e: Entry) { if self.on { self.entries.insert(i, e); } }
+    fn clear(&mut self) { self.rels.clear(); self.entries.clear(); }
+}
+
+fn apply(root: &mut Relations, op: &Value, h: &mut Handles) -> Result<(), String> {
     let name = op["op"].as_str().unwrap_or("").to_string();
     let i = op["i"].as_u64().unwrap_or(0) as usize;
     let j = op["j"].as_u64().unwrap_or(0) as usize;
     let g = op["g"].as_str().unwrap_or("parsed").to_string();
     let xs: Vec<RelExp> = op["x"].as_array().map(|a| a.iter().filter(|x| x.is_object()).map(super::reledit::rel_exp).collect()).unwrap_or_default();
     let arg = op["x"].as_array().and_then(|a| a.first()).and_then(|x| x.as_u64()).unwrap_or(0);
+    let attr_op = matches!(name.as_str(), "set_version" | "drop_constraint" | "set_archqual" | "set_architectures" | "add_profile");
+    if !attr_op { h.rels.clear(); }
+    if !attr_op && name != "entry_push" { h.clear(); }
     match name.as_str() {
         "push" => { let e = make_entry(&xs, &g)?; guarded("Relations::push", || root.push(e)) }
         "insert" => { let e = make_entry(&xs, &g)?; guarded("Relations::insert", || root.insert(i, e)) }
         "replace" => { let e = make_entry(&xs, &g)?; guarded("Relations::replace", || root.replace(i, e)) }
         "remove_entry" => guarded("Relations::remove_entry", || { root.remove_entry(i); }),
         "entry_remove" => guarded("Entry::remove", || { let mut e = root.get_entry(i).unwrap(); e.remove(); }),
-        "entry_push" => { let r = make_relation(&xs[0], &g)?; guarded("Entry::push", || { let mut e = root.get_entry(i).unwrap(); e.push(r); }) }
+        "entry_push" => { let r = make_relation(&xs[0], &g)?; let mut e = h.entry(root, i); let res = guarded("Entry::push", || { e.push(r); }); h.keep_entry(i, e); res }
         "entry_replace" => { let r = make_relation(&xs[0], &g)?; guarded("Entry::replace", || { let mut e = root.get_entry(i).unwrap(); e.replace(j, r); }) }
         "remove_relation" => guarded("Entry::remove_relation", || { let e = root.get_entry(i).unwrap(); e.remove_relation(j); }),
-        "set_version" => guarded("Relation::set_version", || { let mut r = root.get_entry(i).unwrap().get_relation(j).unwrap();
-            r.set_version(match arg { 1 => Some((vc(">="), "1.0".parse().unwrap())), 2 => Some((vc("<<"), "1:2.0~rc1".parse().unwrap())), _ => None }); }),
-        "drop_constraint" => guarded("Relation::drop_constraint", || { let mut r = root.get_entry(i).unwrap().get_relation(j).unwrap(); r.drop_constraint(); }),
-        "set_archqual" => guarded("Relation::set_archqual", || { let mut r = root.get_entry(i).unwrap().get_relation(j).unwrap(); r.set_archqual("any"); }),
-        "set_architectures" => guarded("Relation::set_architectures", || { let mut r = root.get_entry(i).unwrap().get_relation(j).unwrap();
-            if arg == 1 { r.set_architectures(vec!["amd64"].into_iter()) } else { r.set_architectures(vec!["!i386", "linux-any"].into_iter()) } }),
-        "add_profile" => guarded("Relation::add_profile", || { let mut r = root.get_entry(i).unwrap().get_relation(j).unwrap();
-            let n = r.profiles().count();
-            if n == 0 { r.add_profile(&[BuildProfile::Disabled("nocheck".into())]) } else { r.add_profile(&[BuildProfile::Enabled("stage1".into()), BuildProfile::Disabled("cross".into())]) } }),
+        "set_version" | "drop_constraint" | "set_archqual" | "set_architectures" | "add_profile" => {
+            let mut r = h.rel(root, i, j);
+            let api = format!("Relation::{}", name);
+            let res = guarded(&api, || match name.as_str() {
+                "set_version" => r.set_version(match arg { 1 => Some((vc(">="), "1.0".parse().unwrap())), 2 => Some((vc("<<"), "1:2.0~rc1".parse().unwrap())), _ => None }),
+                "drop_constraint" => { r.drop_constraint(); }
+                "set_archqual" => r.set_archqual("any"),
+                "set_architectures" => { if arg == 1 { r.set_architectures(vec!["amd64"].into_iter()) } else { r.set_architectures(vec!["!i386", "linux-any"].into_iter()) } }
+                _ => { let n = r.profiles().count();
+                       if n == 0 { r.add_profile(&[BuildProfile::Disabled("nocheck".into())]) } else { r.add_profile(&[BuildProfile::Enabled("stage1".into()), BuildProfile::Disabled("cross".into())]) } }
+            });
+            h.keep_rel(i, j, r);
+            res
+        }
         "relation_remove" => guarded("Relation::remove", || { let mut r = root.get_entry(i).unwrap().get_relation(j).unwrap(); r.remove(); }),
         _ => Err(format!("unknown op {}", name)),
     }
@@ -151,18 +177,26 @@ fn model_after(f: &Vec<Vec<RelExp>>, op: &Value) -> Vec<Vec<RelExp>> {
     f
 }
 
-pub fn run_edge(case: &Value, _seed: u64) -> Outcome {
+pub fn run_edge(case: &Value, seed: u64) -> Outcome {
     let mut o = Outcome::default();
     o.key = format!("{}|{}|{}", case["b"], case["h"], case["op"]);
     o.nontrivial = true;
-    o.evals = 1;
+    // once with a fresh handle per call, once with handles kept across calls
+    replay(&mut o, case, seed, false);
+    if o.viol.is_empty() { replay(&mut o, case, seed, true); }
+    o
+}
+
+fn replay(o: &mut Outcome, case: &Value, _seed: u64, persistent: bool) {
+    let mut handles = Handles { on: persistent, ..Default::default() };
+    o.evals += 1;
     let lay = case["lay"].as_str().unwrap_or("plain");
     let has_sv = case["sv"].as_u64() == Some(1);
     let text0 = base_text(lay, &case["f0"]);
     let mut root = match guarded("Relations::parse_relaxed", || Relations::parse_relaxed(&text0, true)) {
         Ok((r, e)) if e.is_empty() => r,
-        Ok((_, e)) => { o.d("base_rejected", &text0, format!("{:?}", e)); return o; }
-        Err(m) => { o.d("base_panic", &text0, m); return o; }
+        Ok((_, e)) => { o.d("base_rejected", &text0, format!("{:?}", e)); return; }
+        Err(m) => { o.d("base_panic", &text0, m); return; }
     };
     let base_svs: Vec<String> = root.substvars().collect();
     let mut model = model_structure(&case["f0"]);
@@ -176,37 +210,38 @@ pub fn run_edge(case: &Value, _seed: u64) -> Outcome {
         let before_entries: Vec<String> = root.entries().map(|e| e.to_string().trim().to_string()).collect();
         let before_empties = empties(&before_text, before_entries.len(), base_svs.len());
         let expected = model_after(&model, op);
-        if let Err(msg) = apply(&mut root, op) {
+        let mut feats = feats; if persistent { feats.push("persistent_handle".into()); }
+        if let Err(msg) = apply(&mut root, op, &mut handles) {
             o.v("C11", "total", &api, "panic", &feats, &before_text, msg);
-            return o;
+            return;
         }
-        let text = match guarded("Relations::to_string", || root.to_string()) { Ok(t) => t, Err(m) => { o.v("C11", "total", &api, "panic", &feats, &before_text, m); return o; } };
+        let text = match guarded("Relations::to_string", || root.to_string()) { Ok(t) => t, Err(m) => { o.v("C11", "total", &api, "panic", &feats, &before_text, m); return; } };
         let ctx = format!("{:?} --{}--> {:?}", before_text, op_desc(op), text);
         // (1) the live object reports the list model
         match lossless_structure(&root) {
-            Err(m) => { o.v("C11", "list_model", &api, "panic", &feats, &ctx, m); return o; }
+            Err(m) => { o.v("C11", "list_model", &api, "panic", &feats, &ctx, m); return; }
             Ok((es, svs)) => {
-                if es != expected { o.v("C11", "list_model", &api, "mismatch", &feats, &ctx, format!("object reports {:?}, list model {:?}", brief(&es), brief(&expected))); return o; }
-                if svs != base_svs { o.v("C11", "substvars_kept", &api, "mismatch", &feats, &ctx, format!("substvars {:?}, before {:?}", svs, base_svs)); return o; }
+                if es != expected { o.v("C11", "list_model", &api, "mismatch", &feats, &ctx, format!("object reports {:?}, list model {:?}", brief(&es), brief(&expected))); return; }
+                if svs != base_svs { o.v("C11", "substvars_kept", &api, "mismatch", &feats, &ctx, format!("substvars {:?}, before {:?}", svs, base_svs)); return; }
             }
         }
         // (2) the printed text parses strictly to the model
         let reparsed = guarded("Relations::parse_relaxed", || Relations::parse_relaxed(&text, true));
         match reparsed {
-            Err(m) => { o.v("C11", "reparse", &api, "panic", &feats, &ctx, m); return o; }
+            Err(m) => { o.v("C11", "reparse", &api, "panic", &feats, &ctx, m); return; }
             Ok((r2, errs)) => {
                 let strict_ok = has_sv || Relations::from_str(&text).is_ok();
-                if !errs.is_empty() || !strict_ok { o.v("C11", "reparse", &api, "mismatch", &feats, &ctx, format!("printed text does not parse: {:?}", errs)); return o; }
+                if !errs.is_empty() || !strict_ok { o.v("C11", "reparse", &api, "mismatch", &feats, &ctx, format!("printed text does not parse: {:?}", errs)); return; }
                 match lossless_structure(&r2) {
                     Ok((es, _)) if es == expected => {}
-                    Ok((es, _)) => { o.v("C11", "reparse", &api, "mismatch", &feats, &ctx, format!("printed text reads as {:?}, list model {:?}", brief(&es), brief(&expected))); return o; }
-                    Err(m) => { o.v("C11", "reparse", &api, "panic", &feats, &ctx, m); return o; }
+                    Ok((es, _)) => { o.v("C11", "reparse", &api, "mismatch", &feats, &ctx, format!("printed text reads as {:?}, list model {:?}", brief(&es), brief(&expected))); return; }
+                    Err(m) => { o.v("C11", "reparse", &api, "panic", &feats, &ctx, m); return; }
                 }
             }
         }
         // (3) separators are not duplicated or left dangling: the number of empty slots does not grow
         let after_empties = empties(&text, expected.len(), base_svs.len());
-        if after_empties > before_empties.max(0) { o.v("C11", "separators", &api, "mismatch", &feats, &ctx, format!("surplus separators {} -> {}", before_empties, after_empties)); return o; }
+        if after_empties > before_empties.max(0) { o.v("C11", "separators", &api, "mismatch", &feats, &ctx, format!("surplus separators {} -> {}", before_empties, after_empties)); return; }
         // (4) entries not addressed keep their text
         let after_entries: Vec<String> = root.entries().map(|e| e.to_string().trim().to_string()).collect();
         let i = op["i"].as_u64().unwrap_or(0) as usize;
@@ -221,15 +256,14 @@ pub fn run_edge(case: &Value, _seed: u64) -> Outcome {
                 else { if i < want.len() { want.remove(i); } }
             }
         }
-        if want != got { o.v("C11", "untouched", &api, "mismatch", &feats, &ctx, format!("other entries {:?} -> {:?}", want, got)); return o; }
+        if want != got { o.v("C11", "untouched", &api, "mismatch", &feats, &ctx, format!("other entries {:?} -> {:?}", want, got)); return; }
         model = expected;
         if last {
             let t = model_structure(&case["t"]);
             if t != model { o.d("model_mismatch", &text, "harness list model differs from TLC's".into()); }
-            if o.sample.is_null() && ops.len() >= 2 { o.sample = json!({"base": text0, "ops": ops.iter().map(op_desc).collect::<Vec<_>>(), "final": text}); }
+            if o.sample.is_null() && ops.len() >= 2 && !persistent { o.sample = json!({"base": text0, "ops": ops.iter().map(op_desc).collect::<Vec<_>>(), "final": text}); }
         }
     }
-    o
 }
 
 fn op_desc(op: &Value) -> String {
